@@ -94,3 +94,15 @@ Theorem C04_same_graph_dependencies_first :
     In w (map src_of l1).
 Proof. exact same_graph_dependencies_first. Qed.
 Print Assumptions C04_same_graph_dependencies_first.
+
+(* "... and not at all otherwise", by construction (no validator): whatever the public build emits - in the main graph or in any nested
+   body - is an operator application on which a requested output depends (a member of the one traversal from the requested outputs).
+   [args] are the arguments of the built main graph: all listed inputs, or with drop_unused_inputs a sub-list of them. *)
+Theorem C04_only_applications_an_output_depends_on_are_emitted_by_construction :
+  forall p r m inputs outputs,
+  build_public p r = inl m -> all_vars (r_inputs r) = Some inputs -> all_vars (r_outputs r) = Some outputs ->
+  exists args, (r_drop r = false -> args = map snd inputs) /\ (forall a, In a args -> In a (map snd inputs)) /\
+    forall u, In u (srcs_graph (mmain m)) ->
+      In u (topo_of (with_main p (Some args) outputs) 0) /\ is_arg (with_main p (Some args) outputs) u = false.
+Proof. exact build_public_emits_only_reachable. Qed.
+Print Assumptions C04_only_applications_an_output_depends_on_are_emitted_by_construction.
